@@ -138,7 +138,7 @@ def _programs(kind: str, rng: random.Random, n: int, full: bool) -> T.Iterator[T
         if os.path.isdir(d):
             for f in sorted(os.listdir(d)):
                 if f.endswith('.meson'):
-                    yield 'corpus', open(os.path.join(d, f), encoding='utf-8').read()
+                    yield ('corpus-reject' if f.endswith('.reject.meson') else 'corpus'), open(os.path.join(d, f), encoding='utf-8').read()
 
 
 def _task(t: T.Tuple[str, int, int, bool]) -> dict:
@@ -187,10 +187,13 @@ def _task(t: T.Tuple[str, int, int, bool]) -> dict:
         res['viol'] = v
         res['oracle_checks'] = n
         return res
-    if kind == 'tree':
+    if kind in ('tree', 'aliasgrid'):
         mp = im.mparser
-        for _ in range(n):
-            code, files = c01_gen.tree_program(rng)
+        if kind == 'aliasgrid':        # `seed` = shard, `n` = number of shards (the grid is exhaustive, not random)
+            items = [(t, c, f) for i, (t, c, f) in enumerate(c01_gen.alias_grid()) if i % max(1, n) == seed]
+        else:
+            items = [('tree',) + c01_gen.tree_program(rng) for _ in range(n)]
+        for tagname, code, files in items:
             res['n'] += 1
             try:
                 ast = im.parse(code)
@@ -210,11 +213,20 @@ def _task(t: T.Tuple[str, int, int, bool]) -> dict:
             for key, what, case in viol:
                 case['files'] = files
             res['viol'] += viol
-            res['cases'].append(('tree', code + ''.join(f'\n#--- {rel}/meson.build\n{txt}' for rel, txt in files.items()),
+            if kind == 'aliasgrid':
+                res['alias_ran'] = res.get('alias_ran', 0) + 1
+                res['alias_live'] = res.get('alias_live', 0) + (1 if im.saw_live_alias else 0)
+            res['cases'].append((kind, code + ''.join(f'\n#--- {rel}/meson.build\n{txt}' for rel, txt in files.items()),
                                  line, ans))
         return res
     for sub, code in _programs(kind, rng, n, full):
         res['n'] += 1
+        if sub == 'corpus-reject':      # a program the reference says must be rejected (at parse time or when evaluated)
+            ok, _vs, ans = c01_oracle.ev(im, code)
+            if ok:
+                res['viol'].append((f'parse-accepts:{code!r}', 'a program the reference rejects is accepted and evaluated',
+                                    {'program': code, 'answer': ans}))
+            continue
         try:
             ast = im.parse(code)
         except Exception:
@@ -231,9 +243,39 @@ def _task(t: T.Tuple[str, int, int, bool]) -> dict:
         except (MemoryError, RecursionError):   # a value too large to snapshot/print under the worker's limit
             res['skipped'] = res.get('skipped', 0) + 1
             continue
+        if kind == 'alias':
+            res['alias_ran'] = res.get('alias_ran', 0) + 1
+            res['alias_live'] = res.get('alias_live', 0) + (1 if im.saw_live_alias else 0)
+        res['snapshots'] = res.get('snapshots', 0) + len(ast.lines)
         res['viol'] += viol
         res['cases'].append((sub, code, line, ans))
     return res
+
+
+# every kept seeded change of this property has a minimised program of its class in the corpus (run first)
+SEED_CLASSES = {
+    'C01-a': 'alias_get_variable_after_plusassign.meson',
+    'C01-b': 'dict_get_falsy_value.meson',
+    'C01-c3': 'fstring_triple_quoted_escapes.meson',
+    'C01-c4': 'nested_ternary_false_branch.reject.meson',
+    'C01-c5': 'contains_array_needle.meson',
+    'C01-c6': 'underscorify_non_ascii.meson',
+    'C01-c7': 'array_get_lowest_negative_index.meson',
+}
+
+
+def corpus_self_check() -> T.List[str]:
+    out = []
+    d = os.path.join(common.VERIF, 'corpus', 'C01')
+    for seed, fname in SEED_CLASSES.items():
+        if not os.path.isfile(os.path.join(d, fname)):
+            out.append(f'no corpus program for the class of kept seed {seed} ({fname})')
+    sd = os.path.join(common.VERIF, 'seeded')
+    if os.path.isdir(sd):
+        for name in sorted(os.listdir(sd)):
+            if name.startswith('C01-') and name not in SEED_CLASSES:
+                out.append(f'kept seed {name} has no corpus program registered in SEED_CLASSES')
+    return out
 
 
 def gen_tables(ctx: Ctx) -> None:
@@ -248,9 +290,9 @@ def gen_tables(ctx: Ctx) -> None:
 def plan(ctx: Ctx) -> T.List[T.Tuple[str, int, int, bool]]:
     rng = ctx.rng
     full = ctx.deep
-    tasks: T.List[T.Tuple[str, int, int, bool]] = [('corpus', 0, 0, full), ('ops', 0, 0, full),
-                                                   ('methods', rng.getrandbits(32), 0, full),
-                                                   ('functions', rng.getrandbits(32), 0, full)]
+    tasks: T.List[T.Tuple[str, int, int, bool]] = [('corpus', 0, 0, full)] + [('aliasgrid', i, 8, full) for i in range(8)] + [
+        ('ops', 0, 0, full),
+        ('methods', rng.getrandbits(32), 0, full), ('functions', rng.getrandbits(32), 0, full)]
     chunk = 250
     for kind, total in (('rand', ctx.scale(9000, 40000)), ('mutant', ctx.scale(7000, 25000)),
                         ('alias', ctx.scale(3000, 10000)), ('tree', ctx.scale(2000, 10000))):
@@ -408,6 +450,20 @@ def run(ctx: Ctx) -> None:
         raise common.ToolFailure(f'inert alphabet is not inert in this CPython: {bad}')
     results = execute(plan(ctx))
     cases: T.List[T.Tuple[str, str, str, str]] = []
+    alias_ran = sum(r.get('alias_ran', 0) for r in results)
+    alias_live = sum(r.get('alias_live', 0) for r in results)
+    snapshots = sum(r.get('snapshots', 0) for r in results)
+    ctx.extra['alias_family'] = {'programs_run': alias_ran, 'programs_with_a_live_alias': alias_live,
+                                 'statement_snapshots_checked': snapshots}
+    # vacuity: the immutability clause is only tested where two names really share one object
+    if alias_ran == 0:
+        ctx.obligation_failed('alias-family', 'no alias-family program ran')
+    if alias_live == 0:
+        ctx.obligation_failed('alias-family', 'no alias-family program created a live alias (two names for one list/dict object)')
+    if snapshots == 0:
+        ctx.obligation_failed('snapshot-oracle', 'the per-statement immutability oracle was applied to no statement')
+    for miss in corpus_self_check():
+        ctx.obligation_failed('corpus', miss)
     for r in results:
         cases += r['cases']
         ctx.count(r['n'] + r['oracle_checks'])
